@@ -40,9 +40,9 @@ class C04(common.Spec):
         d = case['def']
         kind = case['kind']
         if kind == 'timer':
-            return edzed.Timer
+            return type('SubTimer', (edzed.Timer,), {}) if d.get('subclass') else edzed.Timer
         if kind == 'inputexp':
-            return edzed.InputExp
+            return type('SubInputExp', (edzed.InputExp,), {}) if d.get('subclass') else edzed.InputExp
         # timed states may be declared by TIMERS alone
         ns = {'STATES': list(d.get('states_decl', d['states'])),
               'EVENTS': [[ev, frm, nxt] for ev, frm, nxt in d['events']],
@@ -301,7 +301,8 @@ def timer_def(rng):
                 events=[['start', None, 'on'], ['stop', None, 'off'], ['toggle', ['on'], 'off'],
                         ['toggle', ['off'], 'on']],
                 timed=[['on', 'inf', ['name', 'stop']], ['off', 'inf', ['name', 'start']]],
-                inst_dur=inst, cond=cond, restartable=restartable, init=[['goto', 'off'], None])
+                inst_dur=inst, cond=cond, restartable=restartable, init=[['goto', 'off'], None],
+                subclass=rng.random() < 0.25)
 
 
 def inputexp_def(rng):
@@ -311,7 +312,7 @@ def inputexp_def(rng):
                 events=[['put', None, 'valid']],
                 timed=[['valid', 'none', ['goto', 'expired']]],
                 inst_dur=[['valid', du]] if du != 'none' else [], cond=[], duration=du, initdef=initdef,
-                init=[['goto', 'valid' if initdef else 'expired'], None])
+                init=[['goto', 'valid' if initdef else 'expired'], None], subclass=rng.random() < 0.25)
 
 
 def generic_def(rng):
